@@ -28,12 +28,13 @@ fn main() {
             i += 1;
         }
     }
-    if args[1] != "sched" && args[1] != "stress" {
+    if args[1] != "sched" && args[1] != "stress" && args[1] != "sched-replay" {
         guard::install_single_thread_lock_hook();
     }
     let out: Value = match args[1].as_str() {
         "sched" => sched::explore(&opts),
         "stress" => sched::stress(&opts),
+        "sched-replay" => sched::replay_case(&opts),
         "replay-adj" => adj::replay(&opts),
         "record-adj" => adj::record(&opts),
         "replay-search" => search::replay(&opts),
